@@ -6,6 +6,9 @@ CLAIMED = {
  "C06": dict(cat="exploration", ref="4.1", technique="deterministic simulation: seeded schedule search over every atomic access and copy chunk of the real ThreadLink, linearizability against a sequential FIFO model + happens-before race check",
    text="Seeded exploration of writer/reader interleavings of the real thread-link.cpp at the granularity of each atomic load/store and each chunk of each payload copy, on small rings; every history is checked for linearizability against a 25-line byte-capacity FIFO model, for data-race freedom (vector clocks, DRF-SC) and under AddressSanitizer. Sampling, not proof.",
    note="Trusted: the macro seam (std::atomic/memcpy replaced in thread-link.cpp only), the fiber scheduler, the FIFO model. Only SC interleavings are executed; weak-memory behaviour is covered through the race check."),
+ "C15": dict(cat="exploration", ref="4.2", technique="deterministic simulation: real UndoHistory under an interposed, plan-driven clock; seeded histories of record/seek/clock ops checked op by op against a reference model",
+   text="Seeded histories (0..60 ops) of record/seek/clock-advance against the real undo-history.cpp with time() interposed by the simulated clock, so the 2-second merge window is crossed at every sub-second alignment and the 20-event cap in every cursor position; after each op position, size, every retained entry and every emitted message are compared with a reference model written from the property text. Sampling, not proof.",
+   note="Trusted: the time() interposition, the reference model (models/undo_model.h). Between 2 s and 3 s of true elapsed time either merge outcome is accepted because the library's clock has one-second granularity. Backwards clock steps: only memory safety and pos<=size<=20."),
 }
 PENDING = {}
 NA = {
